@@ -1,5 +1,6 @@
 (* C05 — command sequences acknowledge every packet once and stop at the final packet.  Statements only. *)
 From Zvt Require Import Base Length Cp437 Encoding Codec Lookup Transport TransportProps Sequence SequenceProps SpecCheck.
+From Zvt Require Import Client ClientLog.
 Open Scope N_scope.
 
 (* a well-formed reply script: acknowledgement, non-final replies, the first final reply, then anything.
@@ -40,6 +41,24 @@ Proof.
   split; [apply (frame_of_is_frame 6 15 [])|apply (frame_of_is_frame 128 0 [])]; unfold blen; cbn [length]; lia.
 Qed.
 
+(* the same exchange inside the Feig client (Client.v, poll by poll, virtual time): on a connection whose data has all arrived,
+   one poll is exactly one `rp` step of the model above — same frame consumed, same item or error, the acknowledgement written
+   exactly when an item is handed to the caller *)
+Theorem C05_client_poll_is_one_step : forall q id d w, settled (get_conn w id) -> w_now w <= d ->
+  seq_next q id PLoop d w =
+  match rp (q_replies q) (k_buf (get_conn w id)) with
+  | (_, Some (i, v, r)) =>
+      NItem (IOk i v) (if is_final (q_mode q) i then PDone else PLoop)
+            (write_t (at_time (put_conn w id {| k_queue := []; k_close := true; k_buf := r |}) (w_now w)) id ACK)
+  | (_, None) =>
+      match read_frame (k_buf (get_conn w id)) with
+      | Some (f, r) => NItem (IErr 1) PDone (at_time (put_conn w id {| k_queue := []; k_close := true; k_buf := r |}) (w_now w))
+      | None => NItem (IErr 0) PDone w
+      end
+  end.
+Proof. exact seq_next_is_rp. Qed.
+
+Print Assumptions C05_client_poll_is_one_step.
 Print Assumptions C05_seq_trace_shape.
 Print Assumptions C05_single_is_one_reply.
 Print Assumptions C05_every_run_has_the_shape.
